@@ -101,6 +101,9 @@ func c01Gen(t *rapid.T, rec *evid.Recorder) c01Case {
 		rec.Class("feature:" + k)
 	}
 	opt := layout.Options{Random: true, ASI: true, Comments: true, CRLF: r.Intn(6, "crlf") == 0}
+	if !opt.CRLF && r.Intn(12, "cr") == 0 {
+		opt.CR = true // a lone carriage return is a line terminator too
+	}
 	if r.Intn(3, "redundant") == 0 {
 		opt.Redundant = 80
 	}
